@@ -343,6 +343,106 @@ fn lifecycle_case(case: u64, rng: &mut Rng, rep: &mut Report, xproc: bool) {
     }
 }
 
+
+/// Churn: several threads keep trying to create a writer, hold it for a moment and drop it.
+/// The number of writers alive at the same time, counted by the threads themselves, must never
+/// exceed one. Every successful creation increments the counter AFTER it got the writer and
+/// decrements it BEFORE dropping it, so a count of two means two writers really coexisted.
+fn churn_case(case: u64, rng: &mut Rng, rep: &mut Report) {
+    use std::sync::atomic::{AtomicI64, AtomicU64, Ordering};
+    let dk = *rng.pick(&[DirKind::Mon, DirKind::Ram, DirKind::Mmap, DirKind::Mmap]);
+    let tmp = if dk == DirKind::Mmap { tempfile::tempdir().ok() } else { None };
+    let mon = MonDir::new(MonCfg::default());
+    let dir: Box<dyn Directory> = match dk {
+        DirKind::Mon => Box::new(mon.clone()),
+        DirKind::Ram => Box::new(RamDirectory::create()),
+        DirKind::Mmap => match MmapDirectory::open(tmp.as_ref().unwrap().path()) {
+            Ok(d) => Box::new(d),
+            Err(e) => {
+                rep.harness_error(format!("mmap: {e}"));
+                return;
+            }
+        },
+    };
+    let hs = hschema();
+    let index = match Index::create(dir.box_clone(), hs.schema.clone(), Default::default()) {
+        Ok(i) => i,
+        Err(e) => {
+            rep.violation("api-error:create", json!(e.to_string()));
+            return;
+        }
+    };
+    rep.eval();
+    let nthreads = rng.urange(3, 8);
+    let attempts = rng.urange(60, 200);
+    let live = AtomicI64::new(0);
+    let max_live = AtomicI64::new(0);
+    let created = AtomicU64::new(0);
+    let refused = AtomicU64::new(0);
+    let other_errors: Mutex<Vec<String>> = Mutex::new(vec![]);
+    let seeds: Vec<u64> = (0..nthreads).map(|_| rng.next_u64()).collect();
+    std::thread::scope(|s| {
+        for t in 0..nthreads {
+            let (live, max_live, created, refused, other_errors) = (&live, &max_live, &created, &refused, &other_errors);
+            // half of the threads use their own Index handle on the same directory
+            let idx = if t % 2 == 0 {
+                index.clone()
+            } else {
+                match Index::open(dir.box_clone()) {
+                    Ok(i) => i,
+                    Err(_) => index.clone(),
+                }
+            };
+            let seed = seeds[t];
+            s.spawn(move || {
+                let mut r = Rng::new(seed);
+                for _ in 0..attempts {
+                    match idx.writer_with_options::<tantivy::TantivyDocument>(opts(1, 15_000_000)) {
+                        Ok(w) => {
+                            let now = live.fetch_add(1, Ordering::SeqCst) + 1;
+                            max_live.fetch_max(now, Ordering::SeqCst);
+                            created.fetch_add(1, Ordering::Relaxed);
+                            match r.below(3) {
+                                0 => {}
+                                1 => std::thread::yield_now(),
+                                _ => std::thread::sleep(std::time::Duration::from_micros(r.range(10, 200))),
+                            }
+                            live.fetch_sub(1, Ordering::SeqCst);
+                            drop(w);
+                        }
+                        Err(e) => {
+                            if is_lock_failure(&e) {
+                                refused.fetch_add(1, Ordering::Relaxed);
+                            } else {
+                                other_errors.lock().unwrap().push(e.to_string());
+                            }
+                        }
+                    }
+                    if r.chance(1, 3) {
+                        std::thread::yield_now();
+                    }
+                }
+            });
+        }
+    });
+    let ml = max_live.load(Ordering::SeqCst);
+    let c = created.load(Ordering::Relaxed);
+    rep.count("churn_creations", c);
+    rep.count("churn_refusals", refused.load(Ordering::Relaxed));
+    if ml > 1 {
+        rep.violation(
+            "churn:two-live-writers",
+            json!({"case": case, "dir": format!("{dk:?}"), "threads": nthreads, "max_live": ml, "creations": c}),
+        );
+    }
+    for e in other_errors.lock().unwrap().iter().take(3) {
+        rep.violation("churn:refusal-is-not-a-lock-error", json!({"case": case, "dir": format!("{dk:?}"), "err": e}));
+    }
+    if c >= 2 && refused.load(Ordering::Relaxed) >= 1 {
+        rep.nontrivial(format!("churn:{dk:?}:t{nthreads}"));
+    }
+}
+
 fn child(path: &str) -> ! {
     let r = Index::open_in_dir(path).and_then(|i| i.writer_with_num_threads::<tantivy::TantivyDocument>(1, 15_000_000));
     match r {
@@ -368,6 +468,7 @@ fn main() {
     }
     let ctx = Ctx::from_env("C18", "exploration");
     let mut rep = run_cases(&ctx, "lifecycle", ctx.scale(300, 20000) as u64, |c, r, rep| lifecycle_case(c, r, rep, false));
+    rep.merge(run_cases(&ctx, "churn", ctx.scale(40, 2000) as u64, churn_case));
     let mut ctx1 = ctx.clone();
     ctx1.threads = 1;
     rep.merge(run_cases(&ctx1, "xproc", ctx.scale(12, 300) as u64, |c, r, rep| lifecycle_case(c, r, rep, true)));
